@@ -577,7 +577,8 @@ def run_impl(case, keep_dir: bool = False) -> dict:
             ts = TrajectoryStore.create()
             add_all(ts, trajs)
             try:
-                ts.save(base_p, associated_files=assoc_create or None)
+                if any(o == 'ok' for o in res['outcome']):  # nothing accepted: nothing to save (the refusal stands)
+                    ts.save(base_p, associated_files=assoc_create or None)
             except Exception as e:  # noqa: BLE001
                 # the files are written at save time: a refusal surfaces here
                 res['outcome'] = ['ok'] * 0
@@ -593,7 +594,8 @@ def run_impl(case, keep_dir: bool = False) -> dict:
                 add_all(ts, trajs[k:])
                 safe_close(ts)
         nok = len([o for o in res['outcome'] if o == 'ok'])
-        if kind == 'save' and 'save_exc' not in res:
+        if kind == 'save' and 'save_exc' not in res and all(o == 'ok' for o in res['outcome']) and len(res['outcome']) == len(trajs):
+            # (an in-memory store validates a trajectory when it is added; a refusal there is final)
             nok = len(trajs)
             res['outcome'] = ['ok'] * nok
         if kind == 'mapped' and nok == len(trajs):
@@ -1252,6 +1254,94 @@ def replay(ctx, path) -> int:
 
 
 # ----------------------------------------------------------------------------------------------- main
+_SP_POOL = ['CO2', 'H2O', 'HC', 'CO', 'NOx', 'SO2', 'SO4', 'PMvol']
+
+
+def mapped_species_scenarios(ctx, n: int):
+    """Layout "mapping a function over an existing store" when the base file itself has a species dimension: the species
+    of each file are its own; every species-indexed value must read back under the species it was written with."""
+    import gc
+    import tempfile
+
+    import numpy as np
+    from AEIC.storage import Dimensions, FieldMetadata, FieldSet
+    from AEIC.trajectories import TrajectoryStore
+    from AEIC.trajectories.trajectory import Trajectory
+    from AEIC.types import Species, SpeciesValues
+
+    uid = f'{os.getpid()}x{int(ctx.rng.integers(0, 10**6))}'
+    fa = FieldSet(f'c03ms_a{uid}', a_tot=FieldMetadata(dimensions=Dimensions.from_abbrev('TS'), description='base species total', units='g'),
+                  a_seg=FieldMetadata(dimensions=Dimensions.from_abbrev('TSP'), description='base species per point', units='g'))
+    fb = FieldSet(f'c03ms_b{uid}', b_tot=FieldMetadata(dimensions=Dimensions.from_abbrev('TS'), description='mapped species total', units='g'),
+                  b_seg=FieldMetadata(dimensions=Dimensions.from_abbrev('TSP'), description='mapped species per point', units='g'))
+
+    class Holder:
+        FIELD_SETS = [fb]
+
+        def __init__(self, tot, seg):
+            self.b_tot, self.b_seg = tot, seg
+
+    for _ in range(n):
+        rng = ctx.rng
+        sa = [str(x) for x in rng.choice(_SP_POOL, size=int(rng.integers(1, 4)), replace=False)]
+        sb = [str(x) for x in rng.choice(_SP_POOL, size=int(rng.integers(1, 5)), replace=False)]
+        ntr = int(rng.integers(1, 4))
+        d = Path(tempfile.mkdtemp(prefix='c03ms_'))
+        case = {'layout': 'base(species A) + create_associated(species B)', 'species_base': sa, 'species_mapped': sb, 'ntraj': ntr}
+        try:
+            exp = []
+            ts = TrajectoryStore.create(base_file=d / 'base.nc')
+            for ti in range(ntr):
+                npts = int(rng.integers(2, 6))
+                t = Trajectory(npts, name=f't{ti}')
+                t.add_fields(fa)
+                ar = np.arange(npts, dtype=float)
+                for f in ('fuel_flow', 'aircraft_mass', 'fuel_mass', 'ground_distance', 'altitude', 'flight_level', 'rate_of_climb',
+                          'flight_time', 'latitude', 'longitude', 'azimuth', 'heading', 'true_airspeed', 'ground_speed'):
+                    setattr(t, f, ar + ti)
+                t.starting_mass, t.total_fuel_mass = 1000.0 + ti, 10.0 + ti
+                t.n_climb, t.n_cruise, t.n_descent = 1, npts - 2, 1
+                va = {sp: float(100 * ti + q) for q, sp in enumerate(sa)}
+                t.a_tot = SpeciesValues({Species[k]: v for k, v in va.items()})
+                t.a_seg = SpeciesValues({Species[k]: ar + v for k, v in va.items()})
+                ts.add(t)
+                vb = {sp: float(5000 + 100 * ti + q) for q, sp in enumerate(sb)}
+                exp.append((npts, va, vb))
+            ts.close()
+            gc.collect()
+            counter = [0]
+
+            def fn(traj):
+                i = counter[0]
+                counter[0] += 1
+                npts, _, vb = exp[i]
+                ar = np.arange(npts, dtype=float)
+                return Holder(SpeciesValues({Species[k]: v for k, v in vb.items()}), SpeciesValues({Species[k]: ar + v for k, v in vb.items()}))
+
+            with TrajectoryStore.open(base_file=d / 'base.nc') as ts:
+                ts.create_associated(d / 'mapped.nc', [fb.fieldset_name], fn)
+            gc.collect()
+            got = []
+            with TrajectoryStore.open(base_file=d / 'base.nc', associated_files=[d / 'mapped.nc']) as ts:
+                for i in range(len(ts)):
+                    r = ts[i]
+                    got.append(({sp.name: float(v) for sp, v in r.a_tot.items()}, {sp.name: float(v[0]) for sp, v in r.a_seg.items()},
+                                {sp.name: float(v) for sp, v in r.b_tot.items()}, {sp.name: float(v[0]) for sp, v in r.b_seg.items()}))
+            want = [(va, va, vb, vb) for _, va, vb in exp]
+            ctx.case(('mapped-species', json.dumps(case, sort_keys=True)), nontrivial=set(sa) != set(sb), sample=case)
+            ctx.count('layout base-species + mapped-species')
+            if got != want:
+                ctx.clause_fail('species_read_back_as_written', dict(case, impl=got, expected=want), finding=None,
+                                detail='species-indexed values of a base file + mapped associated file do not read back under the species they were written with')
+        except Exception as e:  # noqa: BLE001
+            ctx.case(('mapped-species', json.dumps(case, sort_keys=True)), nontrivial=True, sample=case)
+            ctx.clause_fail('species_read_back_as_written', dict(case, error=f'{type(e).__name__}: {e}'[:200]), finding=None,
+                            detail='storing / mapping / reading a base file with species + a mapped associated file with other species failed')
+        finally:
+            TrajectoryStore.active_in_thread = None
+            shutil.rmtree(d, ignore_errors=True)
+
+
 def main(ctx) -> int:
     ctx.proofs()
     aeic_setup()
@@ -1286,6 +1376,8 @@ def _main(ctx) -> int:
     out = ctx.driver.outs([{'op': 'c03.species_names', 'species': names}])[0]
     if out['names'] != names or out['back'] != names:
         ctx.diverge('species names', {'species': names}, f'model {out}')
+    # 2b. base file with its own species field set + an associated file produced by create_associated whose species differ
+    mapped_species_scenarios(ctx, ctx.scale(quick=6, thorough=60))
     # 3. generated cases
     first_fail = None
     streams = ['valid'] * 5 + ['species'] * 3 + ['boundary'] * 2
